@@ -45,7 +45,10 @@ theorem covN_up_shape : (n : Node) → ∀ c, covN n = .ok c → c.up > 0 →
     exact ⟨h1, h2, by simp only [h3]⟩
   | .ret (some e) => by
     intro c h hu
-    simp only [covN, bind_eq_ok, pure_eq_ok, Except.ok.injEq] at h
+    simp only [covN] at h
+    split at h
+    · simp only [pure_eq_ok, Except.ok.injEq] at h; subst h; exact ⟨rfl, rfl, rfl⟩
+    simp only [bind_eq_ok, pure_eq_ok, Except.ok.injEq] at h
     obtain ⟨a, ha, rfl⟩ := h
     obtain ⟨h1, h2, h3⟩ := covN_up_shape e a ha hu
     exact ⟨h1, h2, by simp only [h3]⟩
